@@ -66,14 +66,25 @@ def keyIndex (keys : Array Zeno.Key) (k : Zeno.Key) : Array Zeno.Key × Nat :=
   | some i => (keys, i)
   | none => (keys.push k, keys.size)
 
-/-- engine `snapshot`, op `run`: schedule → what every delivery / view hands out -/
+/-- engine `snapshot`, op `run`: schedule → what every delivery / view hands out.
+    The environment of Model/Snapshot.lean is the truncation bound `tb = now − retention`:
+    with `"clock": true` the driver follows the database clock (`table.insert`: a point older
+    than `now − retention` is skipped, an accepted one moves the clock; `advance` =
+    `VerifAdvanceClock`), otherwise `tb` is the constant of the request.  `"reread": "clock"`
+    runs the variant whose deliveries use the bound of the moment of delivery. -/
 def snapshotEngine (j : Json) : R Json := do
   let tcfg ← parseCfg (← obj j "cfg")
   let mode ← parseMode (← str j "mode")
-  let tb ← time j "tb"
-  let cfg := sqCfg tcfg.fields tcfg.res tb
+  let tb0 ← time j "tb"
+  let clock := boolD j "clock" false
+  let reread := match j.getObjVal? "reread" with
+    | .ok (Json.str "clock") => true
+    | _ => false
+  let cfgOf : Int → Snap.Cfg Seq SPoint := fun tb => sqCfg tcfg.fields tcfg.res tb
+  let rr : Int → Int → Int := if reread then (fun _ cur => cur) else Snap.keepCaptured
   let evs ← arr j "events"
-  let mut st : Snap.State Seq := {}
+  let mut now : Int := 0
+  let mut st : Snap.EState Seq Int := { cur := if clock then 0 - tcfg.retention else tb0 }
   let mut keys : Array Zeno.Key := #[]
   let mut outs : Array Json := #[]
   for e in evs do
@@ -82,34 +93,47 @@ def snapshotEngine (j : Json) : R Json := do
         let rp ← parseRawPoint (← obj e "p")
         let (keys', ki) := keyIndex keys (reslice tcfg rp.dims)
         keys := keys'
-        -- `doInsert`: one memstore insert per value row of the point (a point without any
-        -- usable value inserts nothing); generated points are single-valued
-        let isField := (← str e "ev") == "ingestField"
-        let f ← if isField then nat e "f" else pure 0
-        for vals in pointRowsD false rp do
-          let p : SPoint := { key := ki, ts := rp.ts, pt := mkPt rp vals }
-          if isField then
-            st := (Snap.step cfg mode st (.ingestField p f)).1
-          else
-            st := (Snap.step cfg mode st (.ingest p)).1
+        if clock && rp.ts < now - tcfg.retention then
+          -- `table.insert`: too old, only the offset advances
+          outs := outs.push (Json.mkObj [("accepted", Json.bool false)])
+        else
+          if clock then
+            now := max now rp.ts
+            st := (Snap.estep cfgOf mode rr st (.setEnv (now - tcfg.retention))).1
+          -- `doInsert`: one memstore insert per value row of the point (a point without any
+          -- usable value inserts nothing); generated points are single-valued
+          let isField := (← str e "ev") == "ingestField"
+          let f ← if isField then nat e "f" else pure 0
+          for vals in pointRowsD false rp do
+            let p : SPoint := { key := ki, ts := rp.ts, pt := mkPt rp vals }
+            if isField then
+              st := (Snap.estep cfgOf mode rr st (.base (.ingestField p f))).1
+            else
+              st := (Snap.estep cfgOf mode rr st (.base (.ingest p))).1
+          outs := outs.push Json.null
+    | "advance" =>
+        let t ← time e "t"
+        if clock then
+          now := max now t
+          st := (Snap.estep cfgOf mode rr st (.setEnv (now - tcfg.retention))).1
         outs := outs.push Json.null
     | "flush" =>
-        st := (Snap.step cfg mode st (.flush (boolD e "raw" true))).1
+        st := (Snap.estep cfgOf mode rr st (.base (.flush (boolD e "raw" true)))).1
         outs := outs.push Json.null
     | "scanStart" =>
-        st := (Snap.step cfg mode st .scanStart).1
-        outs := outs.push (Json.mkObj [("sid", Json.num (Int.ofNat (st.scans.length - 1)))])
+        st := (Snap.estep cfgOf mode rr st (.base .scanStart)).1
+        outs := outs.push (Json.mkObj [("sid", Json.num (Int.ofNat (st.base.scans.length - 1)))])
     | "deliver" =>
         let (keys', ki) := keyIndex keys (← parseKey (← obj e "key"))
         keys := keys'
         let sid ← nat e "sid"
-        match (Snap.step cfg mode st (.deliver sid ki)).2 with
+        match (Snap.estep cfgOf mode rr st (.base (.deliver sid ki))).2 with
         | some (_, _, r) => outs := outs.push (Json.mkObj [("row", optRowJson r)])
         | none => outs := outs.push (Json.mkObj [("row", Json.null)])
     | "view" =>
         let (keys', ki) := keyIndex keys (← parseKey (← obj e "key"))
         keys := keys'
-        outs := outs.push (Json.mkObj [("row", optRowJson (Snap.view cfg st ki))])
+        outs := outs.push (Json.mkObj [("row", optRowJson (Snap.eview cfgOf st ki))])
     | o => throw s!"snapshot: unknown event {o}"
   pure (Json.mkObj [("outs", Json.arr outs), ("keys", Json.arr (keys.map keyJson))])
 
